@@ -24,7 +24,7 @@ def xyz_to_lonlat(xyz):
     n = np.linalg.norm(xyz, axis=-1)
     x, y, z = xyz[..., 0] / n, xyz[..., 1] / n, xyz[..., 2] / n
     lon = np.rad2deg(np.arctan2(y, x))
-    lat = np.rad2deg(np.arcsin(np.clip(z, -1.0, 1.0)))
+    lat = np.rad2deg(np.arctan2(z, np.hypot(x, y)))  # (asin(z) loses eps / cos(lat) near a pole)
     return lon, lat
 
 
